@@ -116,6 +116,7 @@ const c09Builtins = `
 {foreach $i in range(1, 7, 2)}{$i}{index($i)}{isFirst($i)}{isLast($i)}{/foreach}{hasData()}
 {'<a b>'|escapeHtml}{'a b&c'|escapeUri}{'it\'s'|escapeJsString}{'a\nb'|changeNewlineToBr}{'abcdefghij'|insertWordBreaks:3}{'abcdefghij'|truncate:5}{['k': [1, 'x']]|json}{'<i>'|noAutoescape}{'<i>'|id}
 {css base}{msg desc="d"}Hello <b>{randomInt(1)}</b>{/msg}
+{'a b'|noAutoescape|escapeUri|id}{'ab<c'|escapeHtml|truncate:9|insertWordBreaks:30}{'q'|id|noAutoescape|escapeJsString|escapeUri|id}{'r'|id|id|id|id|id|id}{'s'|id|id|id|id|id|id|id}
 {/template}
 
 /**
